@@ -51,6 +51,7 @@ ASSUMPTIONS = [
     "generated graphs are acyclic ADMGs (the property quantifies over ADMGs); cyclic graphs are not explored (the value theorem itself does not assume acyclicity of G: a self-loop on a member of An(Y_*) makes get_counterfactual_factors reject the query)",
 ]
 EXHAUSTIVE = {"quick": False, "thorough": False}
+ESCALATED_TIER = "escalated"   # generator budget of a quick run when an anchored source file changed (about twice the quick stream, all structured families)
 LEANCHECK_MODULES = ["Y0.Model.Ctf", "Y0.Model.CtfSimplify", "Y0.Model.CtfFactor", "Y0.Spec.CtfSem", "Y0.Props.C19"]
 
 OPS = ["minimize", "minimize_event", "simplify", "ancestors", "components_from_sets", "ancestral_components",
@@ -383,11 +384,13 @@ def cases(rng: random.Random, tier: str):
     quick = tier != "thorough"
     n_set = 22000 if quick else 120000     # set-valued / structural streams (random)
     n_sem = 18000 if quick else 100000     # streams evaluated on functional SCMs (random)
+    if tier == "escalated":
+        n_set, n_sem = 45000, 36000
     models = 3 if quick else 4
     # structured families first: they hit the nesting / starred-parent / conditioned-variable branches by construction
     out += structured_nested(rng, 2)
-    out += structured_starred_parent(rng, 2, 350 if quick else 1500)
-    out += structured_conditioned(rng, 700 if quick else 3000)
+    out += structured_starred_parent(rng, 2, 350 if tier == "quick" else 1500)
+    out += structured_conditioned(rng, 700 if tier == "quick" else 3000)
     weights = [("minimize", 3), ("minimize_event", 1), ("ancestors", 4), ("components_from_sets", 2),
                ("ancestral_components", 4), ("is_factor_form", 2), ("factors", 2), ("factors_values", 1), ("convert", 2),
                ("factorize_classes", 3), ("cond_in_ancestral_set", 1), ("ancestral_set_after", 2), ("merge_common", 1),
